@@ -382,13 +382,16 @@ def ofoSafe (c : Loop OFO) : Label → Bool
 
 def ofoStepSafe (c : Loop OFO) (l : Label) : Option (Loop OFO) := if ofoSafe c l then ofoStep c l else none
 
+/-- what the answer of a state-machine method must satisfy before `afterCall` carries it out -/
+def OFO.CallOK (m : OFO) (kids : List (Nat × Nat)) (fromApi : Bool) : Res → Prop
+  | .ok a => OFO.TGood m kids a ∧ (fromApi = true → ApiOK a)
+  | .err _ => OFO.Live m kids
+  | .panic => False
+
 theorem OFO.afterCall_track (fuel : Nat) (fromApi : Bool) (bits : List Bool) (c : Loop OFO) (r : OFO × Res)
     (hg : Glue c) (hst : c.status = .running) (hn0 : c.nextPid ≠ 0)
     (hwf : OFO.WF r.1) (ht : OFO.TInv r.1 c.kids)
-    (hres : match r.2 with
-      | .ok a => OFO.TGood r.1 c.kids a ∧ (fromApi = true → ApiOK a)
-      | .err _ => OFO.Live r.1 c.kids
-      | .panic => False)
+    (hres : OFO.CallOK r.1 c.kids fromApi r.2)
     (hfuel : r.1.spec.length + 2 ≤ fuel) :
     OFO.Track (afterCall ofoMachine fuel fromApi bits c r) := by
   have hG := (afterCall_glue ofoMachine fuel fromApi bits c r hg).1
@@ -398,11 +401,370 @@ theorem OFO.afterCall_track (fuel : Nat) (fromApi : Bool) (bits : List Bool) (c 
   | ok a =>
     simp only
     rw [hr] at hres
+    simp only [OFO.CallOK] at hres
     exact OFO.handle_track fuel fromApi bits _ a hwf ht ⟨hg.fresh, hn0⟩ hres.1 (fun _ => by simp only; omega) (by omega) hst hres.2
   | err e =>
     simp only
     rw [hr] at hres
+    simp only [OFO.CallOK] at hres
     exact ⟨hwf, ht, ⟨hg.fresh, hn0⟩, fun _ => hres, by intro r' hr'; simp [hst] at hr', by simp [hst]⟩
   | panic => rw [hr] at hres; exact hres.elim
+
+
+/-- `afterCall` for an answer that leaves the machine unchanged -/
+theorem OFO.afterCall_track_eq (fuel : Nat) (fromApi : Bool) (bits : List Bool) (c : Loop OFO) (r : OFO × Res)
+    (hg : Glue c) (hst : c.status = .running) (hn0 : c.nextPid ≠ 0) (hm : r.1 = c.m)
+    (hwf : OFO.WF c.m) (ht : OFO.TInv c.m c.kids) (hres : OFO.CallOK c.m c.kids fromApi r.2)
+    (hfuel : c.m.spec.length + 2 ≤ fuel) :
+    OFO.Track (afterCall ofoMachine fuel fromApi bits c r) := by
+  obtain ⟨m', res⟩ := r
+  simp only at hm hres
+  subst hm
+  exact OFO.afterCall_track fuel fromApi bits c _ hg hst hn0 hwf ht hres hfuel
+
+theorem OFO.tres_to_match (m : OFO) (kids : List (Nat × Nat)) (r : Res) (h : OFO.TRes m kids r) (hl : OFO.Live m kids) :
+    OFO.CallOK m kids true r := by
+  cases r with
+  | ok a => simp only [OFO.TRes] at h; exact ⟨h.1, fun _ => h.2⟩
+  | err e => exact hl
+  | panic => exact h
+
+theorem OFO.live_of_shutdown_eq {m m' : OFO} {kids : List (Nat × Nat)} (h : OFO.Live m kids) (hs : m'.shutdown = m.shutdown) :
+    OFO.Live m' kids := by
+  intro hx; rw [hs] at hx; exact h hx
+
+/-- every SAFE step of the closed one-for-one system keeps the tracking invariant -/
+theorem OFO.step_track (c c' : Loop OFO) (l : Label) (h : OFO.Track c) (hs : ofoStepSafe c l = some c') : OFO.Track c' := by
+  unfold ofoStepSafe at hs
+  split at hs
+  rotate_left
+  · simp at hs
+  rename_i hsafe
+  unfold ofoStep at hs
+  have hlen : ∀ m' : OFO, OFO.WF m' → m'.i ≤ c.m.i + 1 → m'.spec.length + 2 ≤ c.m.spec.length + 3 := by
+    intro m' hw hi
+    rw [← hw.next, ← h.core.wf.next]; omega
+  cases l with
+  | die pid r =>
+    have hG := step_glue ofoMachine _ c c' _ h.glue hs
+    simp only [step] at hs
+    split at hs; · simp at hs
+    split at hs
+    · simp only [Option.some.injEq] at hs; subst hs
+      exact ⟨hG, h.core.wf, h.core.tinv, h.core.fresh, h.core.live, h.core.term, h.core.sane⟩
+    · simp at hs
+  | deliver pid now bits =>
+    simp only [step] at hs
+    split at hs; · simp at hs
+    split at hs; · simp at hs
+    rename_i hst _ r hr
+    simp only [Option.some.injEq] at hs; subst hs
+    have hst' : c.status = .running := by simpa using hst
+    have hin := lookupReason_mem pid c.inflight r hr
+    have hpk : pid ∈ keys c.kids := (h.glue.kids_iff pid).mpr (Or.inr (by simp [keys]; exact ⟨r, hin⟩))
+    have hk := lookupKid_mem pid c.kids hpk
+    have hwfg := OFO.ct_good c.m (lookupKid pid c.kids) pid r now h.core.wf
+    have hfu := hlen _ hwfg.1 (by have := OFO.ct_i c.m (lookupKid pid c.kids) pid r now; omega)
+    have hG1 := deliver_pre_glue c pid r c.m h.glue hr
+    cases hsd : c.m.shutdown with
+    | false =>
+      obtain ⟨hT, a, ha, hga⟩ := OFO.ct_track c.m c.kids h.core.tinv h.core.wf hsd pid _ hk r now
+      have hC : OFO.CallOK (c.m.childTerminated (lookupKid pid c.kids) pid r now).1 (c.kids.filter (fun x => x.1 ≠ pid)) false
+          (c.m.childTerminated (lookupKid pid c.kids) pid r now).2 := by rw [ha]; exact ⟨hga, by simp⟩
+      exact OFO.afterCall_track _ false bits _ _ hG1 hst' h.core.fresh.2 hwfg.1 hT hC hfu
+    | true =>
+      obtain ⟨hT, a, ha, hga⟩ := OFO.ct_track_shut c.m c.kids h.core.tinv hsd pid (lookupKid pid c.kids) r now
+      have hC : OFO.CallOK (c.m.childTerminated (lookupKid pid c.kids) pid r now).1 (c.kids.filter (fun x => x.1 ≠ pid)) false
+          (c.m.childTerminated (lookupKid pid c.kids) pid r now).2 := by rw [ha]; exact ⟨hga, by simp⟩
+      exact OFO.afterCall_track _ false bits _ _ hG1 hst' h.core.fresh.2 hwfg.1 hT hC hfu
+  | foreign r now bits =>
+    simp only [step] at hs
+    split at hs; · simp at hs
+    rename_i hst
+    simp only [Option.some.injEq] at hs; subst hs
+    have hst' : c.status = .running := by simpa using hst
+    have hwfg := OFO.ct_good c.m 0 c.nextPid r now h.core.wf
+    have hfu := hlen _ hwfg.1 (by have := OFO.ct_i c.m 0 c.nextPid r now; omega)
+    have hG1 : Glue ({ c with nextPid := c.nextPid + 1 } : Loop OFO) := glue_of_fields h.glue rfl rfl rfl (Nat.le_succ _)
+    cases hsd : c.m.shutdown with
+    | false =>
+      obtain ⟨hT, a, ha, hga⟩ := OFO.ct_track_foreign c.m c.kids h.core.tinv hsd c.nextPid h.core.fresh.2 h.core.fresh.1 r now
+      have hC : OFO.CallOK (c.m.childTerminated 0 c.nextPid r now).1 c.kids false (c.m.childTerminated 0 c.nextPid r now).2 := by
+        rw [ha]; exact ⟨hga, by simp⟩
+      exact OFO.afterCall_track _ false bits _ _ hG1 hst' (by simp) hwfg.1 hT hC hfu
+    | true =>
+      obtain ⟨hT, a, ha, hga⟩ := OFO.ct_track_shut c.m c.kids h.core.tinv hsd c.nextPid 0 r now
+      rw [filter_fresh c.kids c.nextPid h.core.fresh.1] at hT hga
+      have hC : OFO.CallOK (c.m.childTerminated 0 c.nextPid r now).1 c.kids false (c.m.childTerminated 0 c.nextPid r now).2 := by
+        rw [ha]; exact ⟨hga, by simp⟩
+      exact OFO.afterCall_track _ false bits _ _ hG1 hst' (by simp) hwfg.1 hT hC hfu
+  | startChild name args bits =>
+    simp only [step] at hs
+    split at hs; · simp at hs
+    rename_i hst
+    simp only [Option.some.injEq] at hs; subst hs
+    have hst' : c.status = .running := by simpa using hst
+    have hsd : c.m.shutdown = false := by simpa [ofoSafe] using hsafe
+    have hg := OFO.childSpec_good c.m name args h.core.wf
+    have ht := OFO.childSpec_track c.m c.kids h.core.tinv h.core.wf hsd name args
+    simp only at hg ht
+    exact OFO.afterCall_track_eq _ true bits c _ h.glue hst' h.core.fresh.2 ht.1 h.core.wf h.core.tinv
+      (OFO.tres_to_match c.m c.kids _ ht.2 (h.core.live hst')) (by omega)
+  | addChild name sig bits =>
+    simp only [step] at hs
+    split at hs; · simp at hs
+    rename_i hst
+    simp only [Option.some.injEq] at hs; subst hs
+    have hst' : c.status = .running := by simpa using hst
+    have hsd : c.m.shutdown = false := by simpa [ofoSafe] using hsafe
+    have hg := OFO.childAddSpec_good c.m name sig h.core.wf
+    have ht := OFO.childAddSpec_track c.m c.kids h.core.tinv h.core.wf hsd name sig
+    exact OFO.afterCall_track _ true bits c _ h.glue hst' h.core.fresh.2 hg.1 ht.1
+      (OFO.tres_to_match _ c.kids _ ht.2.1 (OFO.live_of_shutdown_eq (h.core.live hst') ht.2.2)) (hlen _ hg.1 (OFO.childAddSpec_i _ _ _))
+  | enable name bits =>
+    simp only [step] at hs
+    split at hs; · simp at hs
+    rename_i hst
+    simp only [Option.some.injEq] at hs; subst hs
+    have hst' : c.status = .running := by simpa using hst
+    have hsafe' : c.m.shutdown = false ∧ ∀ p, (p, name) ∉ c.kids := by
+      simp only [ofoSafe, Bool.and_eq_true, Bool.not_eq_true', List.any_eq_false, beq_iff_eq] at hsafe
+      exact ⟨hsafe.1, fun p hp => hsafe.2 (p, name) hp rfl⟩
+    have hg := OFO.childEnable_good c.m name h.core.wf
+    have ht := OFO.childEnable_track c.m c.kids h.core.tinv h.core.wf hsafe'.1 name hsafe'.2
+    exact OFO.afterCall_track _ true bits c _ h.glue hst' h.core.fresh.2 hg.1 ht.1
+      (OFO.tres_to_match _ c.kids _ ht.2.1 (OFO.live_of_shutdown_eq (h.core.live hst') ht.2.2))
+      (hlen _ hg.1 (by show (OFO.childEnable c.m name).1.i ≤ c.m.i + 1; rw [OFO.childEnable_i]; omega))
+  | disable name =>
+    simp only [step] at hs
+    split at hs; · simp at hs
+    rename_i hst
+    simp only [Option.some.injEq] at hs; subst hs
+    have hst' : c.status = .running := by simpa using hst
+    have hg := OFO.childDisable_good c.m name h.core.wf
+    have ht := OFO.childDisable_track c.m c.kids h.core.tinv (h.core.live hst') name
+    exact OFO.afterCall_track _ true [] c _ h.glue hst' h.core.fresh.2 hg.1 ht.1
+      (OFO.tres_to_match _ c.kids _ ht.2.1 (OFO.live_of_shutdown_eq (h.core.live hst') ht.2.2))
+      (hlen _ hg.1 (by show (OFO.childDisable c.m name).1.i ≤ c.m.i + 1; rw [OFO.childDisable_i]; omega))
+
+
+theorem mkSpecs_names (reg : Bool) (k : Nat) (l : List (Nat × Bool)) : (mkSpecs reg k l).map (·.name) = l.map (·.1) := by
+  induction l generalizing k with
+  | nil => rfl
+  | cons a t ih => obtain ⟨n, sg⟩ := a; simp [mkSpecs, ih]
+
+theorem mkSpecs_pid (reg : Bool) (k : Nat) (l : List (Nat × Bool)) (c : ChildSpec) (h : c ∈ mkSpecs reg k l) : c.pid = 0 := by
+  induction l generalizing k with
+  | nil => simp [mkSpecs] at h
+  | cons a t ih =>
+    obtain ⟨n, sg⟩ := a
+    simp only [mkSpecs, List.mem_cons] at h
+    rcases h with rfl | h
+    · rfl
+    · exact ih (k + 1) h
+
+theorem mkSpecs_idx (l : List (Nat × Bool)) (k0 k : Nat) (c : ChildSpec) (h : (mkSpecs true k0 l)[k]? = some c) : c.i = k0 + k := by
+  induction l generalizing k0 k with
+  | nil => simp [mkSpecs] at h
+  | cons a t ih =>
+    obtain ⟨n, sg⟩ := a
+    simp only [mkSpecs] at h
+    cases k with
+    | zero => simp at h; subst h; rfl
+    | succ k' => simp at h; have := ih (k0 + 1) k' h; omega
+
+theorem mkSpecs_length (l : List (Nat × Bool)) (k0 : Nat) : (mkSpecs true k0 l).length = l.length := by
+  induction l generalizing k0 with
+  | nil => rfl
+  | cons a t ih => obtain ⟨n, sg⟩ := a; simp [mkSpecs, ih]
+
+/-- the base case: ProcessInit of a valid spec -/
+theorem OFO.boot_track (sp : SupSpec) (hv : ValidSpec sp) : OFO.Track (ofoBoot sp) := by
+  unfold ofoBoot boot
+  cases hch : sp.children with
+  | nil => exact absurd hch hv.1
+  | cons a t =>
+    obtain ⟨n, sg⟩ := a
+    have e : mkSpecs true 0 ((n, sg) :: t) = ({ name := n, significant := sg, register := true, i := 0 } : ChildSpec) :: mkSpecs true 1 t := rfl
+    have hspec : (OFO.init {} sp).1.spec = mkSpecs true 0 sp.children := by
+      simp only [OFO.init, hch, List.nil_append, e]
+    have hres : (OFO.init {} sp).2 = .ok { act := .start, spec := { name := n, significant := sg, register := true, i := 0 } } := by
+      simp only [OFO.init, hch, List.nil_append, e]
+    have hmode : (OFO.init {} sp).1.mode = 1 := by
+      simp only [OFO.init, hch, List.nil_append, e]
+    have hi : (OFO.init {} sp).1.i = sp.children.length := by
+      simp only [OFO.init, hch, List.nil_append, e]; simp
+    have hsd : (OFO.init {} sp).1.shutdown = false := by
+      simp only [OFO.init, hch, List.nil_append, e]
+    have hwf : OFO.WF (OFO.init {} sp).1 := by
+      constructor
+      · intro k c hc; rw [hspec] at hc; have := mkSpecs_idx sp.children 0 k c hc; omega
+      · exact Or.inr hmode
+      · rw [hi, hspec, mkSpecs_length]
+    have ht : OFO.TInv (OFO.init {} sp).1 [] := by
+      constructor
+      · rw [hspec, mkSpecs_names]; exact hv.2.1
+      · intro c hc
+        rw [hspec] at hc
+        have : c.name ∈ (mkSpecs true 0 sp.children).map (·.name) := List.mem_map.mpr ⟨c, hc, rfl⟩
+        rw [mkSpecs_names] at this
+        exact hv.2.2 _ this
+      · intro c1 c2 h1 _ _ hne
+        rw [hspec] at h1
+        exact absurd (mkSpecs_pid _ _ _ c1 h1) hne
+      · intro _
+        constructor
+        · intro p
+          constructor
+          · intro hp; simp [keys] at hp
+          · rintro ⟨hp0, c, hc, hcp⟩
+            rw [hspec] at hc
+            exact absurd ((mkSpecs_pid _ _ _ c hc).symm.trans hcp).symm hp0
+        · intro p n' hpn; simp at hpn
+      · intro hx; rw [hsd] at hx; simp at hx
+    have hat : (OFO.init {} sp).1.spec[0]? = some ({ name := n, significant := sg, register := true, i := 0 } : ChildSpec) := by
+      rw [hspec, hch, e]; rfl
+    rw [← hch]
+    apply OFO.afterCall_track _ false [] _ _ _ rfl (by simp) hwf ht
+    · rw [hres]
+      exact ⟨⟨hsd, ⟨_, hat, rfl⟩, _, hat, rfl⟩, by simp⟩
+    · rw [hspec, mkSpecs_length]; omega
+    · constructor <;> simp [keys]
+
+/-- while shutting down the recorded reason is final (one-for-one) -/
+theorem OFO.handle_m (fuel : Nat) : ∀ (bits : List Bool) (c : Loop OFO) (a : Action),
+    (handleAction ofoMachine fuel bits c a).1.m.shutdown = c.m.shutdown ∧
+    (handleAction ofoMachine fuel bits c a).1.m.shutdownReason = c.m.shutdownReason := by
+  induction fuel with
+  | zero => intro bits c a; simp [handleAction]
+  | succ n ih =>
+    intro bits c a
+    rw [handleAction]
+    cases ha : a.act with
+    | nothing => simp
+    | terminate => simp
+    | terminateChildren => simp only; split <;> simp
+    | start =>
+      simp only
+      split
+      · simp
+      · have hcs : (OFO.childStarted c.m a.spec c.nextPid).1.shutdown = c.m.shutdown ∧
+            (OFO.childStarted c.m a.spec c.nextPid).1.shutdownReason = c.m.shutdownReason := by
+          unfold OFO.childStarted
+          split
+          · exact ⟨rfl, rfl⟩
+          · split
+            · exact ⟨rfl, rfl⟩
+            · dsimp only
+              repeat' split
+              all_goals exact ⟨rfl, rfl⟩
+        cases hr : (ofoMachine.childStarted c.m a.spec c.nextPid).2 with
+        | ok a' =>
+          simp only
+          have := ih bits.tail
+            { c with nextPid := c.nextPid + 1, alive := (c.nextPid, a.spec.name) :: c.alive,
+                     kids := (c.nextPid, a.spec.name) :: c.kids, m := (ofoMachine.childStarted c.m a.spec c.nextPid).1 } a'
+          exact ⟨this.1.trans hcs.1, this.2.trans hcs.2⟩
+        | err e => simp only; exact hcs
+        | panic => simp only; exact hcs
+
+
+theorem OFO.afterCall_m (fuel : Nat) (fromApi : Bool) (bits : List Bool) (c : Loop OFO) (r : OFO × Res) :
+    (afterCall ofoMachine fuel fromApi bits c r).m.shutdown = r.1.shutdown ∧
+    (afterCall ofoMachine fuel fromApi bits c r).m.shutdownReason = r.1.shutdownReason := by
+  unfold afterCall
+  cases hr : r.2 with
+  | ok a =>
+    simp only
+    have h1 := OFO.handle_m fuel bits { c with m := r.1 } a
+    have h2 := finish_fields fromApi (handleAction ofoMachine fuel bits { c with m := r.1 } a)
+    rw [h2.2.2.2.2.2.1]
+    exact h1
+  | err e => simp
+  | panic => simp
+
+theorem OFO.ct_stable (m : OFO) (name pid : Nat) (r : Reason) (now : Int) (h : m.shutdown = true) :
+    (m.childTerminated name pid r now).1.shutdown = true ∧
+    (m.childTerminated name pid r now).1.shutdownReason = m.shutdownReason := by
+  unfold OFO.childTerminated
+  simp only [h, if_true]
+  split <;> exact ⟨rfl, rfl⟩
+
+theorem OFO.api_stable (m : OFO) (name : Nat) (sig : Bool) :
+    ((m.childAddSpec name sig).1.shutdown = m.shutdown ∧ (m.childAddSpec name sig).1.shutdownReason = m.shutdownReason) ∧
+    ((m.childEnable name).1.shutdown = m.shutdown ∧ (m.childEnable name).1.shutdownReason = m.shutdownReason) ∧
+    ((m.childDisable name).1.shutdown = m.shutdown ∧ (m.childDisable name).1.shutdownReason = m.shutdownReason) := by
+  refine ⟨?_, ?_, ?_⟩
+  · unfold OFO.childAddSpec; repeat' split
+    all_goals exact ⟨rfl, rfl⟩
+  · unfold OFO.childEnable; repeat' split
+    all_goals exact ⟨rfl, rfl⟩
+  · unfold OFO.childDisable; repeat' split
+    all_goals exact ⟨rfl, rfl⟩
+
+/-- once a one-for-one supervisor is shutting down, every step keeps it so and keeps the recorded reason -/
+theorem OFO.step_stable (c c' : Loop OFO) (l : Label) (hs : ofoStep c l = some c') (h : c.m.shutdown = true) :
+    c'.m.shutdown = true ∧ c'.m.shutdownReason = c.m.shutdownReason := by
+  unfold ofoStep at hs
+  cases l with
+  | die pid r =>
+    simp only [step] at hs
+    split at hs; · simp at hs
+    split at hs
+    · simp only [Option.some.injEq] at hs; subst hs; exact ⟨h, rfl⟩
+    · simp at hs
+  | deliver pid now bits =>
+    simp only [step] at hs
+    split at hs; · simp at hs
+    split at hs; · simp at hs
+    rename_i _ _ r _
+    simp only [Option.some.injEq] at hs; subst hs
+    have h1 := OFO.afterCall_m (c.m.spec.length + 3) false bits
+      { c with inflight := c.inflight.filter (fun p => p.1 ≠ pid), kids := c.kids.filter (fun p => p.1 ≠ pid), noticed := pid :: c.noticed }
+      (c.m.childTerminated (lookupKid pid c.kids) pid r now)
+    have h2 := OFO.ct_stable c.m (lookupKid pid c.kids) pid r now h
+    exact ⟨h1.1.trans h2.1, h1.2.trans h2.2⟩
+  | foreign r now bits =>
+    simp only [step] at hs
+    split at hs; · simp at hs
+    simp only [Option.some.injEq] at hs; subst hs
+    have h1 := OFO.afterCall_m (c.m.spec.length + 3) false bits { c with nextPid := c.nextPid + 1 } (c.m.childTerminated 0 c.nextPid r now)
+    have h2 := OFO.ct_stable c.m 0 c.nextPid r now h
+    exact ⟨h1.1.trans h2.1, h1.2.trans h2.2⟩
+  | startChild name args bits =>
+    simp only [step] at hs
+    split at hs; · simp at hs
+    simp only [Option.some.injEq] at hs; subst hs
+    have h1 := OFO.afterCall_m (c.m.spec.length + 3) true bits c
+      (match (c.m.childSpec name).2 with
+        | .ok a => ((c.m.childSpec name).1, Res.ok (if args > 0 then { a with spec := { a.spec with args := args } } else a))
+        | _ => c.m.childSpec name)
+    have hf : (match (c.m.childSpec name).2 with
+        | .ok a => ((c.m.childSpec name).1, Res.ok (if args > 0 then { a with spec := { a.spec with args := args } } else a))
+        | _ => c.m.childSpec name).1 = c.m := by
+      cases hr : (c.m.childSpec name).2 <;> simp [OFO.childSpec_fst]
+    rw [hf] at h1
+    exact ⟨h1.1.trans h, h1.2⟩
+  | addChild name sig bits =>
+    simp only [step] at hs
+    split at hs; · simp at hs
+    simp only [Option.some.injEq] at hs; subst hs
+    have h1 := OFO.afterCall_m (c.m.spec.length + 3) true bits c (c.m.childAddSpec name sig)
+    have h2 := (OFO.api_stable c.m name sig).1
+    exact ⟨(h1.1.trans h2.1).trans h, h1.2.trans h2.2⟩
+  | enable name bits =>
+    simp only [step] at hs
+    split at hs; · simp at hs
+    simp only [Option.some.injEq] at hs; subst hs
+    have h1 := OFO.afterCall_m (c.m.spec.length + 3) true bits c (c.m.childEnable name)
+    have h2 := (OFO.api_stable c.m name false).2.1
+    exact ⟨(h1.1.trans h2.1).trans h, h1.2.trans h2.2⟩
+  | disable name =>
+    simp only [step] at hs
+    split at hs; · simp at hs
+    simp only [Option.some.injEq] at hs; subst hs
+    have h1 := OFO.afterCall_m (c.m.spec.length + 3) true [] c (c.m.childDisable name)
+    have h2 := (OFO.api_stable c.m name false).2.2
+    exact ⟨(h1.1.trans h2.1).trans h, h1.2.trans h2.2⟩
 
 end ErgoVerif.Sup
